@@ -214,6 +214,19 @@ def _scan_float(s):
     return k
 
 
+def _to_int(text):
+    """int(text) for -?DIGITS of any length (the interpreter refuses very long numerals in one go)."""
+    if len(text) <= 4000:
+        return int(text)
+    neg = text[0] == '-'
+    digits = text[1:] if neg else text
+    v = 0
+    for k in range(0, len(digits), 4000):
+        chunk = digits[k:k + 4000]
+        v = v * 10 ** len(chunk) + int(chunk)
+    return -v if neg else v
+
+
 def _take(seg, nxt_lit, rest):
     """(captured text, converted value) of wildcard `seg` at the start of non-empty `rest`, or None."""
     filt, arg = seg[2], seg[3]
@@ -223,7 +236,7 @@ def _take(seg, nxt_lit, rest):
         return text, text
     if filt == 'int':
         n = _scan_int(rest)
-        return (rest[:n], int(rest[:n])) if n else None
+        return (rest[:n], _to_int(rest[:n])) if n else None
     if filt == 'float':
         n = _scan_float(rest)
         return (rest[:n], float(rest[:n])) if n else None
